@@ -132,7 +132,7 @@ func (w *storeWorld) checkPulledBy(att *pullAttempt, spec *pullModelSpec, what s
 		case err != nil:
 			w.violate("C03", "store-audit", "pull-success:layer-missing", "%s of %s reported success but layer %s is not in the store: %v", what, spec.name, shortDigest(l.Digest), err)
 			return
-		case "sha256:"+sum != l.Digest:
+		case "sha256:"+sum != strings.Replace(l.Digest, "sha256-", "sha256:", 1):
 			w.violate("C03", "store-audit", "pull-success:layer-corrupt", "%s of %s reported success but layer %s has content sha256:%s (%d bytes, manifest size %d)", what, spec.name, shortDigest(l.Digest), sum[:12], n, l.Size)
 			return
 		case !tampered && n != l.Size:
